@@ -1162,8 +1162,8 @@ func (x *xl) spawn(c *ast.CallExpr, at ast.Node) {
 	})
 	rn := "go " + name + " @" + x.p.Pos(at)
 	for _, r := range x.region.hoisted {
-		if r.Name == rn && fmt.Sprint(r.Body) == fmt.Sprint(body) {
-			return // started again from another call path with the same bindings
+		if r.Name == rn && shapeKey(r.Body) == shapeKey(body) {
+			return // the same go statement reached again by another call path, same bindings
 		}
 	}
 	x.region.hoisted = append(x.region.hoisted, Role{Name: rn, Repl: true, Body: body})
@@ -1423,7 +1423,7 @@ func (t *translator) sites() []Site {
 			if !ok || fd.Body == nil {
 				continue
 			}
-			scope := outOfScope[t.p.encl[fd]]
+			scope := scopeOf(t.p.encl[fd])
 			ast.Inspect(fd.Body, func(n ast.Node) bool {
 				switch v := n.(type) {
 				case *ast.GoStmt:
@@ -1500,4 +1500,20 @@ func (x *xl) publishedAs(v *types.Var) *path {
 		return true
 	})
 	return found
+}
+
+// shapeKey: a role body up to the call paths of its accesses.
+func shapeKey(ss []Stmt) string {
+	var sb strings.Builder
+	for _, s := range ss {
+		switch s.Kind {
+		case SAcc:
+			fmt.Fprintf(&sb, "%v %s %v %s;", s.Acc.Kind, s.Acc.Cls, s.Acc.Recv, s.Acc.Pos)
+		case SSync:
+			fmt.Fprintf(&sb, "sync %s %v {%s}", s.Lock.Cls, s.Lock.Recv, shapeKey(s.Body))
+		case SStar:
+			fmt.Fprintf(&sb, "star {%s}", shapeKey(s.Body))
+		}
+	}
+	return sb.String()
 }
